@@ -540,7 +540,13 @@ func newObservedMap(pass *analysishelper.EnhancedPass, files []*ast.File) *Obser
 					readDocNilabilitySet := func(specDoc *ast.CommentGroup) nilabilitySet {
 						if len(decl.Specs) == 1 {
 							// this reads declarations like type A struct {}
-							return nilabilityFromCommentGroup(decl.Doc)
+							set := nilabilityFromCommentGroup(decl.Doc)
+							// a parenthesized declaration with a single spec, like type (A struct{}),
+							// carries the docstring on the spec (which takes precedence)
+							for name, val := range nilabilityFromCommentGroup(specDoc) {
+								set[name] = val
+							}
+							return set
 						}
 
 						// this reads declarations like type (A struct{}, B struct{})
